@@ -126,8 +126,11 @@ def otable_term(orc):
         if a is None or any(x is None for x in a):
             return "None"
         return "(Some [" + "; ".join(qh(x) for x in a) + "])"
-    si = "; ".join(f"({qh(e['wavelength'])}, {qh(e['ext'])}, {ans(e['r'])})" for e in orc.get("snell_inv", []))
-    wp = "; ".join(f"({qh(e['wavelength'])}, {e['pol']}, {ans(e['r'])})" for e in orc.get("waist_pos", []))
+    # (records whose key is not a finite number -- e.g. an idler of infinite wavelength -- cannot be looked up: left out, the
+    # model's lookup then answers the sentinel and the comparison reports the mismatch)
+    si = "; ".join(f"({qh(e['wavelength'])}, {qh(e['ext'])}, {ans(e['r'])})" for e in orc.get("snell_inv", [])
+                   if is_finite_hex(e['wavelength']) and is_finite_hex(e['ext']))
+    wp = "; ".join(f"({qh(e['wavelength'])}, {e['pol']}, {ans(e['r'])})" for e in orc.get("waist_pos", []) if is_finite_hex(e['wavelength']))
     dk = orc.get("dkz0")
     return ("{| t_snell_inv := [%s]; t_snell_ext := %s; t_nm_theta := %s; t_dkz0 := %s; t_nm_period := %s; t_idler_theta := %s; "
             "t_waist_pos := [%s]; t_snell_ext_args := %s; t_nm_theta_args := %s; t_dkz0_args := %s; t_idler_theta_args := %s |}"
